@@ -58,6 +58,14 @@ spec fn some_veto(lex: LexiconSet, input: &str, eos: int) -> bool {
 }
 
 impl<'a> NonBreakChecker<'a> {
+//@extract sudachi/src/sentence_detector.rs :: impl<'a> NonBreakChecker<'a> :: fn new
+//@  rw Rself 1 custom
+//@  | -> Self \{
+//@  > -> NonBreakChecker<'a> {
+//@  ret r
+//@  spec
+        ensures r.bos == 0, r.lexicon == lexicon
+//@end
 //@extract sudachi/src/sentence_detector.rs :: impl NonBreakChecker<'_> :: fn has_non_break_word
 //@  rw R7 1
 //@  rw R14s 1 custom
@@ -109,17 +117,195 @@ impl<'a> NonBreakChecker<'a> {
         }
 //@end
 }
-/// ASSUMED envelope of SentenceDetector::get_eos (its body is built on fancy_regex): a positive result is a byte offset
-/// inside the slice on a character boundary, a negative result means "no boundary in this window"
+/// envelope of SentenceDetector::get_eos: a positive result is a byte offset inside the slice on a character boundary,
+/// a negative result means "no boundary in this window"
 spec fn eos_ok(slice: Seq<u8>, rv: isize) -> bool {
     rv < 0 || (0 < rv <= slice.len() && is_char_boundary(slice, rv as int))
 }
+/// C16 for get_eos: the result is 0 exactly for the empty text; a positive result is a position inside the text on a character
+/// boundary at which no dictionary word vetoes the break (checked against the WHOLE remaining text, not the processing window);
+/// a negative result is minus such a position
+spec fn get_eos_ok(input: &str, checker: Option<&NonBreakChecker>, rv: isize) -> bool {
+    let n = input.spec_bytes().len() as int;
+    &&& (n == 0 <==> rv == 0)
+    &&& (rv > 0 ==> rv <= n && is_char_boundary(input.spec_bytes(), rv as int)
+            && (checker is Some ==> !some_veto(*checker->Some_0.lexicon, input, rv as int)))
+    &&& (rv < 0 ==> -rv <= n && is_char_boundary(input.spec_bytes(), -(rv as int)))
+}
+
+// ----- R14: fancy_regex searches of sentence_detector.rs (the lazy_static patterns) as functions with ASSUMED contracts:
+// a match lies inside the haystack, ends on a character boundary, is not empty; the engine does not fail (backtrack limit)
+pub struct ReMatch { pub s: usize, pub e: usize }
+impl ReMatch {
+    fn start(&self) -> (r: usize) ensures r == self.s { self.s }
+    fn end(&self) -> (r: usize) ensures r == self.e { self.e }
+}
+spec fn match_ok(m: ReMatch, hay: Seq<u8>) -> bool {
+    m.s < m.e <= hay.len() && is_char_boundary(hay, m.s as int) && is_char_boundary(hay, m.e as int)
+}
+impl From<RegexErr> for SudachiError { #[verifier::external_body] fn from(e: RegexErr) -> SudachiError { SudachiError::Other } }
+pub struct RegexErr { _p: () }
+/// `SENTENCE_BREAKER.find_iter(&s)` collected, in order
+#[verifier::external_body]
+fn re_sentence_breaker_find_iter(s: &str) -> (r: Vec<Result<ReMatch, RegexErr>>)
+    ensures forall|k: int| 0 <= k < r@.len() ==> (#[trigger] r@[k]) is Ok && match_ok(r@[k]->Ok_0, s.spec_bytes())
+{ unimplemented!() }
+#[verifier::external_body]
+fn re_take(v: &Vec<Result<ReMatch, RegexErr>>, i: usize) -> (r: Result<ReMatch, RegexErr>)
+    requires i < v@.len()
+    ensures r is Ok <==> v@[i as int] is Ok, r is Ok ==> r->Ok_0 == v@[i as int]->Ok_0
+{ unimplemented!() }
+#[verifier::external_body]
+fn re_itemize_header_is_match(s: &str) -> (r: Result<bool, RegexErr>) ensures r is Ok { unimplemented!() }
+#[verifier::external_body]
+fn re_spaces_find(s: &str) -> (r: Result<Option<ReMatch>, RegexErr>)
+    ensures r is Ok, r->Ok_0 is Some ==> match_ok(r->Ok_0->Some_0, s.spec_bytes())
+{ unimplemented!() }
+/// regex helpers of sentence_detector.rs, NOT verified; assumed: total on the slices get_eos passes, prohibited_bos returns the
+/// byte length of a prefix of whole characters
+#[verifier::external_body]
+fn parenthesis_level(s: &str) -> (r: SudachiResult<usize>) ensures r is Ok { unimplemented!() }
+#[verifier::external_body]
+fn prohibited_bos(s: &str) -> (r: SudachiResult<usize>)
+    ensures r is Ok, r->Ok_0 <= s.spec_bytes().len(), is_char_boundary(s.spec_bytes(), r->Ok_0 as int)
+{ unimplemented!() }
+#[verifier::external_body]
+fn is_continuous_phrase(s: &str, eos: usize) -> (r: SudachiResult<bool>)
+    requires 0 < eos < s.spec_bytes().len(), is_char_boundary(s.spec_bytes(), eos as int)
+    ensures r is Ok
+{ unimplemented!() }
+/// R13: `input.chars().take(limit).collect::<String>()`: the longest prefix of at most `limit` characters
+#[verifier::external_body]
+fn str_take_chars(input: &str, limit: usize) -> (r: String)
+    ensures
+        r@ == input@.subrange(0, if limit as int <= input@.len() { limit as int } else { input@.len() as int }),
+        encode_utf8(r@).len() <= input.spec_bytes().len(),
+        encode_utf8(r@) == input.spec_bytes().subrange(0, encode_utf8(r@).len() as int),
+        is_char_boundary(input.spec_bytes(), encode_utf8(r@).len() as int),
+        limit >= 1 && input.spec_bytes().len() > 0 ==> encode_utf8(r@).len() > 0,
+{ input.chars().take(limit).collect() }
+#[verifier::external_body]
+fn str_is_empty(s: &str) -> (r: bool) ensures r == (s.spec_bytes().len() == 0) { s.is_empty() }
+
+/// a character boundary of a prefix (cut at a character boundary) is a character boundary of the whole text
+proof fn lemma_prefix_boundary(whole: Seq<u8>, pre: Seq<u8>, p: int)
+    requires
+        valid_utf8(whole), valid_utf8(pre), pre.len() <= whole.len(), pre == whole.subrange(0, pre.len() as int),
+        is_char_boundary(whole, pre.len() as int), 0 <= p <= pre.len(), is_char_boundary(pre, p),
+    ensures is_char_boundary(whole, p)
+{
+    if p < pre.len() {
+        is_char_boundary_iff_not_is_continuation_byte(pre, p);
+        is_char_boundary_iff_not_is_continuation_byte(whole, p);
+        assert(pre[p] == whole[p]);
+    }
+}
+
+//@extract sudachi/src/sentence_detector.rs :: const DEFAULT_LIMIT
+//@end
+/// trusted UTF-8 fact: the part of a valid UTF-8 text after a character boundary is valid UTF-8
+proof fn axiom_utf8_suffix_valid(whole: Seq<u8>, a: int)
+    requires valid_utf8(whole), 0 <= a <= whole.len(), is_char_boundary(whole, a)
+    ensures valid_utf8(whole.subrange(a, whole.len() as int))
+{ admit(); }
+/// a character boundary of the part after a character boundary is a character boundary of the whole text
+proof fn lemma_suffix_boundary(whole: Seq<u8>, a: int, r: int)
+    requires
+        valid_utf8(whole), 0 <= a <= whole.len(), is_char_boundary(whole, a),
+        0 <= r <= whole.len() - a, is_char_boundary(whole.subrange(a, whole.len() as int), r),
+    ensures is_char_boundary(whole, a + r)
+{
+    let suf = whole.subrange(a, whole.len() as int);
+    axiom_utf8_suffix_valid(whole, a);
+    if r < suf.len() {
+        is_char_boundary_iff_not_is_continuation_byte(suf, r);
+        is_char_boundary_iff_not_is_continuation_byte(whole, a + r);
+        assert(suf[r] == whole[a + r]);
+    } else {
+        is_char_boundary_start_end_of_seq(whole);
+    }
+}
 impl SentenceDetector {
-    #[verifier::external_body]
-    fn get_eos(&self, input: &str, checker: Option<&NonBreakChecker>) -> (r: SudachiResult<isize>)
-        requires input.spec_bytes().len() > 0
-        ensures r is Ok, eos_ok(input.spec_bytes(), r->Ok_0)
-    { unimplemented!() }
+//@extract sudachi/src/sentence_detector.rs :: impl SentenceDetector :: fn new
+//@  rw Rself 1 custom
+//@  | -> Self \{
+//@  > -> SentenceDetector {
+//@  ret r
+//@  spec
+        ensures r.limit >= 1
+//@end
+//@extract sudachi/src/sentence_detector.rs :: impl SentenceDetector :: fn with_limit
+//@  rw Rself 1 custom
+//@  | -> Self \{
+//@  > -> SentenceDetector {
+//@  rw R14s * custom
+//@  | limit\.max\(1\)
+//@  > max_usize(limit, 1)
+//@  ret r
+//@  spec
+        ensures r.limit >= 1
+//@end
+//@extract sudachi/src/sentence_detector.rs :: impl SentenceDetector :: fn get_eos
+//@  rw Rlazy 2
+//@  rw R13 1 custom
+//@  | input\.is_empty\(\)
+//@  > str_is_empty(input)
+//@  rw R13 1 custom
+//@  | input\.chars\(\)\.take\(([^()]+)\)\.collect\(\)
+//@  > str_take_chars(input, \1)
+//@  rw R14 1 custom
+//@  | for mat in SENTENCE_BREAKER\.find_iter\(&s\) \{
+//@  > let __ms = re_sentence_breaker_find_iter(s.as_str()); let mut __im: usize = 0; while __im < __ms.len() { let mat = re_take(&__ms, __im); __im += 1;
+//@  rw R13' * custom
+//@  | &s\[\.\.eos\]
+//@  > str_slice(s.as_str(), 0, eos)
+//@  rw R13' * custom
+//@  | &s\[eos\.\.\]
+//@  > str_slice(s.as_str(), eos, s.len())
+//@  rw R14 1 custom
+//@  | ITEMIZE_HEADER\.is_match\(&s\)
+//@  > re_itemize_header_is_match(s.as_str())
+//@  rw R14 1 custom
+//@  | is_continuous_phrase\(&s, eos\)
+//@  > is_continuous_phrase(s.as_str(), eos)
+//@  rw R14 1 custom
+//@  | SPACES\.find\(&s\)
+//@  > re_spaces_find(s.as_str())
+//@  ret r
+//@  spec
+        requires
+            self.limit >= 1,
+            checker is Some ==> checker->Some_0.bos == 0,
+        ensures
+            r is Ok,
+            get_eos_ok(input, checker, r->Ok_0),
+            input.spec_bytes().len() > 0 ==> eos_ok(input.spec_bytes(), r->Ok_0),
+//@  atstart
+        broadcast use axiom_str_len_fits;
+        let ghost ib = input.spec_bytes();
+        proof { encode_utf8_valid_utf8(input@); is_char_boundary_start_end_of_seq(ib); }
+//@  before let input_exceeds_limit
+        let ghost sb = encode_utf8(s@);
+        proof { encode_utf8_valid_utf8(s@); is_char_boundary_start_end_of_seq(sb); }
+//@  loop 1
+            invariant
+                ib == input.spec_bytes(), sb == encode_utf8(s@), valid_utf8(ib), valid_utf8(sb),
+                0 < sb.len() <= ib.len(), sb == ib.subrange(0, sb.len() as int), is_char_boundary(ib, sb.len() as int),
+                is_char_boundary(sb, 0), is_char_boundary(sb, sb.len() as int),
+                checker is Some ==> checker->Some_0.bos == 0,
+                __im <= __ms@.len(),
+                forall|k: int| 0 <= k < __ms@.len() ==> (#[trigger] __ms@[k]) is Ok && match_ok(__ms@[k]->Ok_0, sb),
+            decreases __ms@.len() - __im
+//@  after let mut eos =
+            let ghost e0 = eos as int;
+//@  before if eos < s.len() && is_continuous_phrase
+            proof {
+                if e0 < sb.len() { lemma_suffix_boundary(sb, e0, eos - e0); }
+                lemma_prefix_boundary(ib, sb, eos as int);
+            }
+//@  before return Ok(-(mat.end() as isize));
+                proof { lemma_prefix_boundary(ib, sb, mat.e as int); }
+//@end
 }
 
 //@extract sudachi/src/sentence_splitter.rs :: struct SentenceIter
@@ -127,7 +313,10 @@ impl SentenceDetector {
 impl<'s, 'x> SentenceIter<'s, 'x> {
     /// iterator state: position is inside the text, on a character boundary
     spec fn wf(&self) -> bool {
-        self.position <= self.data.spec_bytes().len() && is_char_boundary(self.data.spec_bytes(), self.position as int)
+        &&& self.position <= self.data.spec_bytes().len() && is_char_boundary(self.data.spec_bytes(), self.position as int)
+        // established by the constructors of SentenceDetector (limit >= 1) and NonBreakChecker::new (bos == 0)
+        &&& self.splitter.limit >= 1
+        &&& (self.checker is Some ==> self.checker->Some_0.bos == 0)
     }
 // R11: `impl Iterator for SentenceIter { fn next }` verified as an inherent fn
 //@extract sudachi/src/sentence_splitter.rs :: impl<'s, 'x> Iterator for SentenceIter<'s, 'x> :: fn next
